@@ -104,6 +104,11 @@ fn gen_case(prop: &str, seed: u64, i: u64, corpus: &Corpus) -> Case {
       return Case { kind: "regression".into(), label: n.clone(), user: p, entry: "Main".into(), features: BTreeSet::new() };
     }
   }
+  if i % 20 == 13 {
+    // closures capturing `this` and several other variables, members reached through an interface
+    let text = crate::exprgen::order_zoo(&mut rng);
+    return Case { kind: "order-zoo".into(), label: format!("order zoo {i}"), user: Project::single("Zoo", &text), entry: "Zoo".into(), features: BTreeSet::new() };
+  }
   if i % 20 == 7 {
     // string literals by adjacency of escape sequences and target-language special characters:
     // printed, concatenated and compared (the window of the enumeration moves with seed and i)
